@@ -92,6 +92,13 @@ fn main() {
                 2
             }
         },
+        "burstm" => match stress::burst_multi(&kv["out"], num("spans", 9000) as usize) {
+            Ok(c) => c,
+            Err(e) => {
+                eprintln!("harness error: {e}");
+                2
+            }
+        },
         "burstr" => match stress::burst_roots(&kv["out"], num("spans", 7000) as usize) {
             Ok(c) => c,
             Err(e) => {
